@@ -47,6 +47,8 @@ e2a2e4c:C11
 da05acb:C06
 9a95cc4:C18,C05,C06
 f907567:C03
+3fbece2:C06,C05,C18
+f0e8e48:C09
 @5f18c17:C03
 @b475a6a:C03
 @c771c24:C03
